@@ -236,7 +236,11 @@ func (e *icaExec) world() M {
 			if ch.Ordering == channeltypes.ORDERED {
 				ord = "ordered"
 			}
-			chans = append(chans, M{"id": name, "state": stateName(ch.State), "order": ord, "cp": cp, "address": addr})
+			kport := port
+			if !ctrl {
+				kport = ch.Counterparty.PortId
+			}
+			chans = append(chans, M{"id": name, "port": kport, "state": stateName(ch.State), "order": ord, "cp": cp, "address": addr})
 		}
 		sort.Slice(chans, func(i, j int) bool { return chans[i]["id"].(string) < chans[j]["id"].(string) })
 		if ctrl {
@@ -311,7 +315,7 @@ func (e *icaExec) Do(in M) any {
 		if f == "register" {
 			ctx, write := e.a.GetContext().CacheContext()
 			ctx = ctx.WithEventManager(sdk.NewEventManager())
-			ms := ctrlkeeper.NewMsgServerImpl(&e.a.GetSimApp().ICAControllerKeeper)
+			ms := ctrlkeeper.NewMsgServerImpl(e.a.GetSimApp().ICAControllerKeeper)
 			var res *ctrltypes.MsgRegisterInterchainAccountResponse
 			res, err = ms.RegisterInterchainAccount(ctx, &ctrltypes.MsgRegisterInterchainAccount{Owner: owner, ConnectionId: conn, Version: version, Ordering: order(in)})
 			if err == nil {
@@ -428,7 +432,7 @@ func (e *icaExec) Do(in M) any {
 		owner := S(in, "owner")
 		ctx, write := e.a.GetContext().CacheContext()
 		ctx = ctx.WithEventManager(sdk.NewEventManager())
-		ms := ctrlkeeper.NewMsgServerImpl(&e.a.GetSimApp().ICAControllerKeeper)
+		ms := ctrlkeeper.NewMsgServerImpl(e.a.GetSimApp().ICAControllerKeeper)
 		data := icatypes.InterchainAccountPacketData{Type: icatypes.EXECUTE_TX, Data: []byte("x")}
 		if !Bool(in, "dataOk") {
 			data.Data = nil
